@@ -1345,7 +1345,26 @@ Proof.
 Qed.
 
 (* what a priority call does to the state *)
-Definition prio_call (a : xop) : Prop := match a with XHop _ => False | _ => True end.
+Lemma register_same s r b : get_lock s r = None -> same_rel s (put_lock s r (mkLock None 0 0 b [])).
+Proof.
+  intros Hl. constructor; auto.
+  - intros W. constructor.
+    + intros r' l'. rewrite get_lock_put_lock. destruct (Z.eqb r r') eqn:E.
+      * intros X. inversion X; subst. reflexivity.
+      * apply (wf_lock s W).
+    + intros r' l' o'. rewrite get_lock_put_lock, get_ctx_put_lock, active_put_lock.
+      destruct (Z.eqb r r') eqn:E.
+      * intros X Ho. inversion X; subst. discriminate.
+      * apply (wf_own s W).
+    + intros o'. rewrite active_put_lock, get_ctx_put_lock. apply (wf_act s W).
+  - intros r'. rewrite !owner_def, get_lock_put_lock. destruct (Z.eqb r r') eqn:E; auto.
+    assert (r = r') by lia. subst. now rewrite Hl.
+Qed.
+
+(* the calls that are no start / acquisition / release / end of an operation / watchdog pass
+   (release_all_resources, shutdown and run_maintenance release or end operations) *)
+Definition prio_call (a : xop) : Prop :=
+  match a with XHop _ | XReleaseAll _ | XShutdown | XMaintain => False | _ => True end.
 
 Lemma prio_call_same fl w xs a :
   prio_call a ->
@@ -1353,7 +1372,7 @@ Lemma prio_call_same fl w xs a :
   same_rel (fst (fst xs)) (fst (fst xs')) /\ snd (fst xs') = snd (fst xs).
 Proof.
   intros P. destruct xs as [[s ws] bs].
-  destruct a as [h|  |o|  |o p|r b|d|o|r]; [destruct P| | | | | | | |]; cbn [xstep].
+  destruct a as [h|  |o|  |o p|r b|d|o|r|o| | |r b]; try (now destruct P); cbn [xstep].
   - pose proof (boost_waiters_same (edges s) (map fst (edges s)) s bs) as X.
     unfold check_and_boost. destruct (boost_waiters (edges s) (map fst (edges s)) s bs) as [[[s' bs'] nb]|].
     + simpl. split; auto. exact (X _ eq_refl).
@@ -1369,6 +1388,7 @@ Proof.
     destruct (fstep fl w s (FAdvance o)) as [s' ret]. simpl in *. split; auto.
   - pose proof (quiet_fop_same fl w s (FPopWaiter r) I) as X. unfold xfop.
     destruct (fstep fl w s (FPopWaiter r)) as [s' ret]. simpl in *. split; auto.
+  - destruct (get_lock s r) as [l|] eqn:Hl; simpl; split; auto; [apply same_rel_refl | now apply register_same].
 Qed.
 
 Lemma rec_edges_same s s' : edges s' = edges s -> rec_edges s' = rec_edges s.
@@ -1400,11 +1420,45 @@ Proof.
 Qed.
 
 (* -- all histories over the extended alphabet -------------------------- *)
+Lemma mid_same_rel s s' ws : Mid s ws -> same_rel s s' -> Mid s' ws.
+Proof.
+  intros [W K He Hn] [A B C D]. constructor.
+  - auto.
+  - now rewrite C.
+  - intros w b r. rewrite C, B, D. apply He.
+  - intros w r X. rewrite D. auto.
+Qed.
+
+Lemma release_all_mid s ws o : Mid s ws -> Mid (release_all current s o) ws.
+Proof. intros M. unfold release_all. destruct (get_ctx s o); auto. now apply release_fold_mid. Qed.
+
+Lemma shutdown_mid s ws : Mid s ws -> Mid (shutdown current s) ws.
+Proof. intros M. unfold shutdown. now apply abort_fold_mid. Qed.
+
+Lemma check_and_boost_same s bs s' bs' nb :
+  check_and_boost s bs = Some (s', bs', nb) -> same_rel s s'.
+Proof.
+  intros H. exact (boost_waiters_same (edges s) (map fst (edges s)) s bs (s', bs', nb) H).
+Qed.
+
 Lemma xstep_inv w xs a : Inv (fst xs) -> Inv (fst (fst (xstep current w xs a))).
 Proof.
-  intros Hi. destruct a as [h|  |o|  |o p|r b|d|o|r].
+  intros Hi. destruct a as [h|  |o|  |o p|r b|d|o|r|o| | |r b].
   1:{ destruct xs as [[s ws] bs]. cbn [xstep]. pose proof (gstep_inv w (s, ws) h Hi) as X.
       destruct (gstep current w (s, ws) h) as [gs' ret]. exact X. }
+  9:{ (* release_all_resources on an operation that stays alive *)
+      destruct xs as [[s ws] bs]. cbn [xstep]. destruct (is_active s o); [|exact Hi].
+      cbn [fst]. apply mid_inv, release_all_mid, inv_mid, Hi. }
+  9:{ (* shutdown: a fold of aborts, then clear_all *)
+      destruct xs as [[s ws] bs]. cbn [xstep fst]. apply mid_inv.
+      eapply mid_same_rel; [|apply clear_boosts_same]. apply shutdown_mid, inv_mid, Hi. }
+  9:{ (* run_maintenance: check_and_boost, then the watchdog *)
+      destruct xs as [[s ws] bs]. cbn [xstep].
+      destruct (check_and_boost s bs) as [[[s1 bs1] nb]|] eqn:B; [|exact Hi].
+      assert (I1 : Inv (s1, ws)).
+      { eapply inv_same_rel; [exact Hi| |reflexivity]. exact (check_and_boost_same _ _ _ _ _ B). }
+      pose proof (gstep_inv w (s1, ws) HWatchdog I1) as X.
+      destruct (gstep current w (s1, ws) HWatchdog) as [gs' ret]. exact X. }
   all: match goal with |- Inv (fst (fst (xstep _ _ _ ?a))) =>
          destruct (prio_call_same current w xs a I) as (S & Hw) end;
        eapply inv_same_rel; eauto.
@@ -1547,3 +1601,113 @@ Lemma x_deadlock_iff_reference_proof res w hs :
        In m (active (fst gs)) /\
        exists r b, In (m, r) (snd gs) /\ owner (fst gs) r = Some b /\ b <> m /\ In b (active (fst gs))).
 Proof. intros gs. apply deadlock_iff_reference_inv, xreachable_inv. Qed.
+
+(* ================================================================== *)
+(* Part 6: the other public calls that release or end operations        *)
+
+(* controller.release_all_resources(ctx) on an operation that stays alive: it is still active,
+   owns nothing, nobody is recorded as waiting on it any more, what the others own and every
+   recorded wait on somebody else (also the releaser's own waits) is as before *)
+Lemma release_all_live_inv w xs o :
+  Inv (fst xs) -> In o (active (fst (fst xs))) ->
+  let xs' := fst (xstep current w xs (XReleaseAll o)) in
+  snd (xstep current w xs (XReleaseAll o)) = [0] /\
+  active (fst (fst xs')) = active (fst (fst xs)) /\
+  (forall r, owner (fst (fst xs')) r <> Some o) /\
+  (forall r b, b <> o -> (owner (fst (fst xs')) r = Some b <-> owner (fst (fst xs)) r = Some b)) /\
+  (forall wt r, ~ In (wt, o, r) (rec_edges (fst (fst xs')))) /\
+  (forall wt b r, b <> o ->
+     (In (wt, b, r) (rec_edges (fst (fst xs'))) <-> In (wt, b, r) (rec_edges (fst (fst xs))))) /\
+  snd xs' = snd xs.
+Proof.
+  intros Hi Ha. pose proof (xstep_inv w xs (XReleaseAll o) Hi) as Hi'.
+  destruct xs as [[s ws] bs]. cbn [fst snd] in Hi, Ha. revert Hi'. cbv zeta. cbn [xstep].
+  apply is_active_In in Ha. rewrite Ha. cbn [fst snd]. intros Hi'.
+  destruct (release_all_spec s o (inv_wf _ Hi)) as (W' & Q & N). cbn [fst] in W', Q, N.
+  set (s' := release_all current s o) in *.
+  assert (Ow : forall r b, b <> o -> (owner s' r = Some b <-> owner s r = Some b)).
+  { intros r b Nb. split; intros X.
+    - assert (Y : owner s r <> Some o).
+      { intros Y. destruct (q_freed _ _ _ Q r Y) as [Z|Z]; congruence. }
+      rewrite owner_def in X. rewrite (q_lock _ _ _ Q r Y) in X. now rewrite owner_def.
+    - assert (Y : owner s r <> Some o) by congruence.
+      rewrite owner_def. rewrite (q_lock _ _ _ Q r Y). now rewrite <- owner_def. }
+  split; auto. split. { exact (q_active _ _ _ Q). }
+  split. { exact N. }
+  split. { exact Ow. }
+  split.
+  - intros wt r X. apply (edges_exact_inv _ wt o r Hi') in X. apply ref_edges_In in X as (_ & X).
+    cbn [fst] in X. exact (N r X).
+  - split; auto. intros wt b r Nb.
+    rewrite (edges_exact_inv _ wt b r Hi'), (edges_exact_inv _ wt b r Hi), !ref_edges_In. cbn [fst snd].
+    rewrite still_blocked_In, (q_active _ _ _ Q), (Ow r b Nb). split.
+    + intros ((X1 & _ & _) & X2). auto.
+    + intros (X1 & X2). split; auto. split; auto.
+      destruct (inv_live _ Hi wt r X1) as (A & _). split; auto.
+      cbn [fst] in *. intros Z. apply (Ow r b Nb) in X2. congruence.
+Qed.
+
+Lemma x_release_all_live_proof res w hs o :
+  let xs := xrun current w (xinit res) hs in
+  In o (active (fst (fst xs))) ->
+  let xs' := fst (xstep current w xs (XReleaseAll o)) in
+  snd (xstep current w xs (XReleaseAll o)) = [0] /\
+  active (fst (fst xs')) = active (fst (fst xs)) /\
+  (forall r, owner (fst (fst xs')) r <> Some o) /\
+  (forall r b, b <> o -> (owner (fst (fst xs')) r = Some b <-> owner (fst (fst xs)) r = Some b)) /\
+  (forall wt r, ~ In (wt, o, r) (rec_edges (fst (fst xs')))) /\
+  (forall wt b r, b <> o ->
+     (In (wt, b, r) (rec_edges (fst (fst xs'))) <-> In (wt, b, r) (rec_edges (fst (fst xs))))) /\
+  snd xs' = snd xs.
+Proof. intros xs. apply release_all_live_inv, xreachable_inv. Qed.
+
+(* CoordinationSystem.shutdown(): nothing is left - no active operation, no owner, no recorded or
+   reference wait, no boost, no deadlock *)
+Lemma shutdown_clears_inv w xs :
+  Inv (fst xs) ->
+  let xs' := fst (xstep current w xs XShutdown) in
+  active (fst (fst xs')) = [] /\ (forall r, owner (fst (fst xs')) r = None) /\
+  rec_edges (fst (fst xs')) = [] /\ ref_edges (fst xs') = [] /\ snd (fst xs') = [] /\ snd xs' = [] /\
+  detect_cycle (edges (fst (fst xs'))) = None.
+Proof.
+  intros Hi. pose proof (xstep_inv w xs XShutdown Hi) as Hi'.
+  destruct xs as [[s ws] bs]. revert Hi'. cbv zeta. cbn [xstep fst snd]. intros Hi'.
+  destruct (shutdown_spec s (inv_wf _ Hi)) as (_ & A & O & _). cbn [fst] in A, O.
+  destruct (clear_boosts_same bs (shutdown current s)) as [_ A' Ed' O'].
+  set (s' := clear_boosts (shutdown current s) bs) in *.
+  assert (A2 : active s' = []) by congruence.
+  assert (O2 : forall r, owner s' r = None) by (intros r; rewrite O'; apply O).
+  assert (Wn : still_blocked s' ws = []).
+  { destruct (still_blocked s' ws) as [|[a b] l] eqn:E; auto. exfalso.
+    assert (X : In (a, b) (still_blocked s' ws)) by (rewrite E; simpl; auto).
+    apply still_blocked_In in X as (_ & X & _). now rewrite A2 in X. }
+  assert (Rn : rec_edges s' = []).
+  { destruct (rec_edges s') as [|[[a b] r] l] eqn:E; auto. exfalso.
+    assert (X : In (a, b, r) (rec_edges s')) by (rewrite E; simpl; auto).
+    apply (edges_exact_inv _ a b r Hi') in X. apply ref_edges_In in X as (X & _).
+    cbn [snd] in X. now rewrite Wn in X. }
+  split; auto. split; auto. split; auto.
+  split. { unfold ref_edges. cbn [snd]. now rewrite Wn. }
+  split; auto. split; auto.
+  destruct (detect_cycle (edges s')) as [c|] eqn:D; auto. exfalso.
+  destruct (cycle_sound_proof _ _ D) as (C & _).
+  destruct c as [|m c]; [exact C|].
+  destruct (cycle_members_succ _ _ m C (or_introl eq_refl)) as (y & r & Hy).
+  apply (rec_edges_In s' m y r (inv_keys _ Hi')) in Hy. now rewrite Rn in Hy.
+Qed.
+
+Lemma x_shutdown_clears_proof res w hs :
+  let xs' := fst (xstep current w (xrun current w (xinit res) hs) XShutdown) in
+  active (fst (fst xs')) = [] /\ (forall r, owner (fst (fst xs')) r = None) /\
+  rec_edges (fst (fst xs')) = [] /\ ref_edges (fst xs') = [] /\ snd (fst xs') = [] /\ snd xs' = [] /\
+  detect_cycle (edges (fst (fst xs'))) = None.
+Proof. apply shutdown_clears_inv, xreachable_inv. Qed.
+
+(* CoordinationSystem.run_maintenance() is check_and_boost followed by watchdog.execute *)
+Lemma maintain_is_boost_then_watchdog_proof fl w xs :
+  fst (xstep fl w xs XMaintain) = fst (xstep fl w (fst (xstep fl w xs XBoost)) (XHop HWatchdog)).
+Proof.
+  destruct xs as [[s ws] bs]. cbn [xstep].
+  destruct (check_and_boost s bs) as [[[s1 bs1] nb]|] eqn:B; [|now apply boost_fuel_proof in B].
+  cbn [fst xstep]. destruct (gstep fl w (s1, ws) HWatchdog) as [gs' ret]. reflexivity.
+Qed.
